@@ -276,13 +276,16 @@ def skactiveml_classifiers(ctx):
     unlabeled, partial_fit, fit again; predictions equal a fresh clone fitted once on (X[idx_], y_) - in particular a fit on
     unlabeled indices only forgets whatever an earlier fit left in the model."""
     from sklearn.base import clone
-    from skactiveml.classifier import ParzenWindowClassifier, SlidingWindowClassifier
+    from sklearn.mixture import GaussianMixture
+    from skactiveml.classifier import MixtureModelClassifier, ParzenWindowClassifier, SlidingWindowClassifier
     from skactiveml.pool.utils import IndexClassifierWrapper
     rng = ctx.rng("skclf")
     mks = [("ParzenWindowClassifier", lambda s: ParzenWindowClassifier(classes=[0, 1], random_state=s)),
            ("SlidingWindowClassifier[only_labeled]", lambda s: SlidingWindowClassifier(ParzenWindowClassifier(classes=[0, 1], random_state=s), classes=[0, 1], only_labeled=True, random_state=s)),
-           ("SlidingWindowClassifier", lambda s: SlidingWindowClassifier(ParzenWindowClassifier(classes=[0, 1], random_state=s), classes=[0, 1], random_state=s))]
-    for h in range(45 if ctx.is_quick else 450):
+           ("SlidingWindowClassifier", lambda s: SlidingWindowClassifier(ParzenWindowClassifier(classes=[0, 1], random_state=s), classes=[0, 1], random_state=s)),
+           # an UNFITTED mixture is estimated by every fit on the data of that fit (a refit must not keep the mixture of an earlier fit)
+           ("MixtureModelClassifier[unfitted mixture]", lambda s: MixtureModelClassifier(mixture_model=GaussianMixture(n_components=2, random_state=s), classes=[0, 1], random_state=s))]
+    for h in range(60 if ctx.is_quick else 600):
         name, mk = mks[h % len(mks)]
         n = int(rng.integers(8, 14))
         X = rng.normal(size=(n, 2)) + rng.integers(0, 2, size=(n, 1)) * 2
@@ -294,6 +297,7 @@ def skactiveml_classifiers(ctx):
         clf = mk(seed)
         ipf = bool(h % 2)
         ops = []
+        lo = 3 if "Mixture" in name else 1        # a two-component mixture needs at least two samples
         try:
             w = IndexClassifierWrapper(clf, X, y, ignore_partial_fit=ipf)
             i0 = np.concatenate([[0, 1], rng.choice(np.arange(2, n), size=int(rng.integers(1, 4)), replace=False)])
@@ -303,12 +307,12 @@ def skactiveml_classifiers(ctx):
             for k in range(int(rng.integers(1, 4))):
                 r = rng.random()
                 if r < 0.45:
-                    i1 = rng.choice(unl, size=int(rng.integers(1, 4)), replace=False)      # purely unlabeled indices
+                    i1 = rng.choice(unl, size=int(rng.integers(lo, 4)), replace=False)      # purely unlabeled indices
                     w.fit(i1)
                     ops.append(("fit", i1.tolist()))
                     implied = list(i1)
                 elif r < 0.6:
-                    i1 = rng.choice(n, size=int(rng.integers(1, 5)), replace=False)
+                    i1 = rng.choice(n, size=int(rng.integers(lo, 5)), replace=False)
                     w.fit(i1)
                     ops.append(("fit", i1.tolist()))
                     implied = list(i1)
